@@ -348,7 +348,7 @@ func panicSite2(r interface{}) string {
 
 type c05TsObserver struct{ out []string }
 
-func (o *c05TsObserver) OnPatPmt(b []byte) { o.out = append(o.out, fmt.Sprintf("H%d", len(b))) }
+func (o *c05TsObserver) OnPatPmt(b []byte) { o.out = append(o.out, "H") }
 func (o *c05TsObserver) OnTsPackets(tsPackets []byte, frame *mpegts.Frame, boundary bool) {
 	k := "a"
 	if frame.Sid == mpegts.StreamIdVideo {
@@ -414,7 +414,7 @@ func runC05Ts(evTok string) string {
 }
 
 // c05.rtsp <addflag> <events>: Rtmp2RtspRemuxer alone; per message: "S" when
-// the SDP callback fired (+ video/audio payload type), number of RTP packets
+// the SDP callback fired, "/", number of RTP packets (hex)
 func runC05Rtsp(flagTok, evTok string) string {
 	old := remux.RtspRemuxerAddSpsPps2KeyFrameFlag
 	remux.RtspRemuxerAddSpsPps2KeyFrameFlag = boolTok(flagTok)
@@ -422,7 +422,7 @@ func runC05Rtsp(flagTok, evTok string) string {
 	var cur []string
 	npkt := 0
 	r := remux.NewRtmp2RtspRemuxer(func(ctx sdp.LogicContext) {
-		cur = append(cur, fmt.Sprintf("S%d/%d", ctx.GetVideoPayloadTypeBase(), ctx.GetAudioPayloadTypeBase()))
+		cur = append(cur, "S")
 	}, func(pkt rtprtcp.RtpPacket) {
 		npkt++
 	})
